@@ -16,10 +16,10 @@ LEVEL = "exploration"
 SUB_RC = (("P", ("L",), ("L",)), [G.entry("R", {"R": 3.0}), G.entry("C", {"C": 2e-5})])
 PALETTE = {
     "R": G.entry("R"), "C": G.entry("C"), "L": G.entry("L"), "La": G.entry("La"), "Q": G.entry("Q"), "W": G.entry("W"),
-    "Zarc": G.entry("Zarc"), "Tlm": G.entry("Tlm"), "TlmN": G.entry("Tlm", sub={"X_1": SUB_RC, "Z_B": (("L",), [G.entry("Tlm")])}, name="TlmN"),
+    "Zarc": G.entry("Zarc"), "Tlmbq": G.entry("Tlmbq"), "Tlm": G.entry("Tlm"), "TlmN": G.entry("Tlm", sub={"X_1": SUB_RC, "Z_B": (("L",), [G.entry("Tlm")])}, name="TlmN"),
 }
 SMALL = ["R", "C", "Q", "Tlm", "TlmN"]
-LABELS = ["", "a", "a b", "R1", "x_1", "1a", "_a", "a{b}c", "a:b", "a,b=2", "a}b", "-x", "Z(1)", "a/b%", "x^2", "a_b_c", "$", "\\alpha"]
+LABELS = ["", "a", "a b", "R1", "x_1", "1a", "_a", "a{b}c", "a:b", "a,b=2", "a}b", "-x", "Z(1)", "a/b%", "x^2", "a_b_c", "$", "\\alpha", "B", "n"]
 _ST: Dict[str, Any] = {}
 
 
@@ -197,6 +197,16 @@ def run_case(case: dict, st=None):
             except Exception:
                 return [], "label-refused"
     v, o = check_circuit(c, tree, case.get("label", ""), st)
+    if not v and o == "checked" and case.get("edit"):
+        from vf.checks import c16
+
+        st16 = c16.setup()
+        if c16.apply_edit(c, case["edit"], st16):
+            v, o2 = check_circuit(c, ("S", ("L",), ("L",)), case.get("label", ""), st)   # shape feature no longer known: judged as canonical
+            for x in v:
+                x["key"] += f"|after-edit:{case['edit']}"
+                x["what"] += f" [after {case['edit']} on the same Circuit object]"
+            o = "checked+edited" if o2 == "checked" else "edited-not-simulable"
     for x in v:
         x["case"] = case
     return v, o
@@ -213,7 +223,7 @@ def _chunk(cases) -> dict:
         v, o = run_case(case, st)
         n += 1
         outcomes[o] = outcomes.get(o, 0) + 1
-        if o == "checked" and (G.n_leaves(case["tree"]) >= 2 or case.get("label")):
+        if o.startswith("checked") and (G.n_leaves(case["tree"]) >= 2 or case.get("label")):
             nontrivial.append(hash(repr(case)))
             if sample is None and G.n_leaves(case["tree"]) >= 3:
                 sample = {"circuit": G.tree_str(case["tree"], iter(case["fill"])), "label": case.get("label", "")}
@@ -248,10 +258,15 @@ def cases(thorough: bool) -> List[dict]:
                 [tuple(pal[(i + j * (1 + s)) % len(pal)] for j in range(n)) for i in range(len(pal)) for s in range(2)]
             for fill in fills:
                 out.append({"tree": t, "fill": list(fill)})
+    from vf.checks.c16 import EDITS
+
+    for i, c_ in enumerate(out):
+        if G.is_canonical(c_["tree"]):
+            c_["edit"] = EDITS[i % len(EDITS)]
     # labels on every position of small circuits
     for t in [("L",), ("S", ("L",), ("L",)), ("P", ("L",), ("L",)), ("S", ("L",), ("P", ("L",), ("L",)))]:
         nl = G.n_leaves(t)
-        for fill in (["R"] * nl, ["Tlm"] + ["C"] * (nl - 1), ["Q"] * nl):
+        for fill in (["R"] * nl, ["Tlm"] + ["C"] * (nl - 1), ["Q"] * nl, ["Tlmbq"] * nl):
             for lb in LABELS[1:]:
                 for pos in range(nl):
                     out.append({"tree": t, "fill": list(fill), "label": lb, "label_pos": pos})
@@ -261,12 +276,12 @@ def cases(thorough: bool) -> List[dict]:
 def run(ctx) -> None:
     thorough = ctx.tier == "thorough"
     setup()
-    ctx.rule = ("every canonical skeleton with <= 3 leaves over a 9-entry palette {R, C, L, La, Q, W, Zarc, Tlm, Tlm with nested (RC) and a nested "
+    ctx.rule = ("every canonical skeleton with <= 3 leaves over a 10-entry palette {R, C, L, La, Q, W, Zarc, Tlmbq, Tlm, Tlm with nested (RC) and a nested "
                 "Tlm}, the object-only shapes over 5 entries, 4 leaves (5 in thorough) over 5 (3) entries (rotating fillings in quick, full product "
-                "in thorough), and 17 labels (every first-character class, CDC and LaTeX metacharacters) at every position of four small circuits; "
+                "in thorough), and 19 labels (incl. labels that equal the suffix of a parameter name, e.g. 'B' next to Y_B) (every first-character class, CDC and LaTeX metacharacters) at every position of four small circuits; "
                 "only circuits that simulate are judged. Oracles: to_sympy / to_sympy(substitute) / to_latex / to_circuitikz (default, running, "
                 "hide_labels) / to_drawing / to_stack return; variable counts; balanced begin/end; one drawn component per element of the "
-                "connections, labelled with the circuit's own name for it; finite coordinates. Non-trivial = >= 2 leaves or a label.")
+                "connections, labelled with the circuit's own name for it; finite coordinates. Every canonical circuit is then edited in place (append/remove/set_subcircuits) and all exports are produced again from the same object. Non-trivial = >= 2 leaves or a label.")
     ctx.exhaustive = True
     cs = cases(thorough)
     k = 160
